@@ -381,7 +381,7 @@ func c28WorkerMain() {
 			}
 		}()
 		hung := false
-		deadline := time.After(timeout + 6*time.Second)
+		deadline := time.After(timeout + 3*time.Second)
 		tick := time.NewTicker(100 * time.Millisecond)
 	waitLoop:
 		for {
@@ -579,6 +579,7 @@ var c28Known = []c28Sig{
 	{"C28-shift-negative", regexp.MustCompile(`slice bounds out of range \[-`), []string{"interp.(*Runner).builtin"}, nil},
 	{"C28-getopts-stale-runeidx", regexp.MustCompile(`index out of range`), []string{"interp.(*getopts).next"}, nil},
 	{"C28-arith-lvalue-index", regexp.MustCompile(`variable name must not be empty`), []string{"interp.(*Runner).lookupVar", "expand.Arithm"}, nil},
+	{"C28-empty-nameref-target", regexp.MustCompile(`variable name must not be empty`), []string{"interp.(*Runner).lookupVar", "expand.Variable.Resolve"}, nil},
 	{"C28-empty-variable-name", regexp.MustCompile(`variable name must not be empty`), []string{"interp.(*Runner).lookupVar"},
 		[]string{"interp.(*Runner).builtin", "interp.(*Runner).unTest"}},
 	{"C28-assoc-index-not-word", regexp.MustCompile(`interface conversion: syntax\.ArithmExpr is (nil|\*syntax\.\w+), not \*syntax\.Word`), nil,
